@@ -234,7 +234,7 @@ func digestResults(rs []sim.Result) string {
 	h := sha256.New()
 	for _, r := range rs {
 		for _, e := range r.Events {
-			fmt.Fprintf(h, "%s|%q|%d\n", e.Kind, e.Data, e.N)
+			fmt.Fprintf(h, "%s|%q|%d|%d\n", e.Kind, e.Data, e.N, e.T)
 		}
 		fmt.Fprintf(h, "exit=%d ret=%v panic=%q budget=%v ticks=%d\n", r.Exit, r.Returned, r.Panic, r.Budget, r.Ticks)
 	}
